@@ -10,7 +10,7 @@ ID = "C15"
 LEVEL = "fault_enumeration"
 RULE = ("trees {three classes incl. a 131073-byte class that reaches the suffix and content stages under the SSD pin, nested "
         "directories, a hard link; the same with file/directory symlinks and -L; a tree on ext4 under the HDD pin so that "
-        "FIEMAP is issued; a small tree under the 'unknown' pin; a tree spread over three input paths, given as arguments and through --stdin, where every call on an input path after the up-front existence check is a fault point; the small tree also under --transform (pipe and $IN), and with a transform program that itself fails for one file (exit status 1 after partial output), run twice with and without --cache}, `group -t 1` (two of the trees also with --unique, "
+        "FIEMAP is issued; a small tree under the 'unknown' pin; a tree spread over three input paths, given as arguments and through --stdin, where every call on an input path after the up-front existence check is a fault point; the small tree also under --transform (pipe and $IN), and with a transform program that itself fails for one file (exit status 1 after partial output), run twice with and without --cache, and with a transform command whose path does not exist}, `group -t 1` (two of the trees also with --unique, "
         "--rf-under 3 and --rf-over 0); the read-side call history (stat, lstat, "
         "open, every read, opendir, every readdir, readlink, realpath, FIEMAP ioctl) is recorded twice (must be "
         "identical); then EVERY event k fails with EACCES, EIO and ENOENT, every open also together with the call that follows it (the O_NOATIME attempt and its fall-back: the entry vanished) (thorough: also every pair k1<k2 for the small "
@@ -74,6 +74,9 @@ def cases(tier, seed):
         for cache in (False, True):
             for flt in ([], ["--rf-over", "0"], ["--unique"]):
                 out.append({"tree": "small_unknown", "kind": "transform_fails", "tier": tier, "filter": flt, "mode": mode, "cache": cache})
+    # a transform command whose path does not exist although a program of that name is on the PATH
+    for tr in ("./nonexistent/fcv-tr keep", "/nonexistent/dir/cat", "./nonexistent/fcv-tr keep $IN"):
+        out.append({"tree": "small_unknown", "kind": "transform_unlaunchable", "tier": tier, "transform": tr})
     for stdin in (False, True):
         for flt in ([], ["--rf-over", "0"]):
             out.append({"tree": "three_roots", "pairs": False, "tier": tier, "stdin": stdin, "filter": flt})
@@ -119,14 +122,46 @@ def evaluate_transform_fails(case):
             if got != exp:
                 viol.append(dict(feat, kind="other_files_affected", run=ri,
                                  detail="%s: groups %s, expected %s" % (ctx, sorted(map(sorted, got)), sorted(map(sorted, exp)))))
-            elif " warn:" not in errs:
+            elif not warned(errs):
                 viol.append(dict(feat, kind="no_warning", run=ri, detail="%s: the failing file is left out, but no warning was logged" % ctx))
     return {"violations": viol, "evaluations": 2, "nontrivial": [[case["tree"], "transform_fails", case["mode"], case["cache"], " ".join(flt)]],
             "outcome": "explored", "counters": {"transform_failure_runs": 2},
             "sample": {"tree": case["tree"], "args": args}}
 
 
+def warned(stderr_text):
+    """A warning about a file or directory (the one-time notice that the file system has no FIEMAP is none)."""
+    return any(" warn:" in l and "FIEMAP" not in l for l in stderr_text.splitlines())
+
+
+def evaluate_transform_unlaunchable(case):
+    """The transform program cannot be started for any file. Either the run refuses to start (error exit, no report)
+    or every file is left out with a warning; silently reporting 'no duplicates' is neither."""
+    entries, gargs, disk, ext4 = TREES[case["tree"]]
+    viol = []
+    with C.Scratch() as sc:
+        C.make_tree(sc.tree, entries)
+        args = ["group", "-t", "1", "--min", "0", "-f", "json", "--rf-over", "0", "--transform", case["transform"], "r"]
+        rc, out, err, to = C.fclones(args, sc, env_extra={"FCLONES_VERIF_DISK_KIND": disk})
+        errs = err.decode("utf-8", "replace")
+        feat = {"call": "transform_program", "errno": "cannot_be_launched", "transform": True, "stage": "hash_or_stat",
+                "second_fault": False, "on_input_path": False, "filter": "--rf-over 0"}
+        ctx = "`fclones %s`" % " ".join(args)
+        if to:
+            viol.append(dict(feat, kind="hang", detail=ctx))
+        elif rc == 0:
+            groups = C.parse_json_report(out).groups
+            if groups:
+                viol.append(dict(feat, kind="other_files_affected", detail="%s: reports %d groups although no file could be transformed" % (ctx, len(groups))))
+            elif not warned(errs) and "error:" not in errs:
+                viol.append(dict(feat, kind="no_warning", detail="%s: exit 0, empty report, and not a single warning: every file was dropped silently; stderr: %s" % (ctx, errs[-300:])))
+    return {"violations": viol, "evaluations": 1, "nontrivial": [[case["tree"], "transform_unlaunchable", case["transform"]]],
+            "outcome": "explored", "counters": {"transform_failure_runs": 1}, "sample": {"tree": case["tree"], "args": args}}
+
+
 def evaluate(case):
+    if case.get("kind") == "transform_unlaunchable":
+        return evaluate_transform_unlaunchable(case)
     if case.get("kind") == "transform_fails":
         return evaluate_transform_fails(case)
     entries, gargs, disk, ext4 = TREES[case["tree"]]
@@ -313,7 +348,7 @@ def evaluate(case):
                                  detail="%s: groups %s; expected the fault-free result %s or the result of the tree without a subset of %s" % (
                                      ctx, sorted(map(sorted, obs_groups)), sorted(map(sorted, base_groups)), aff_scanned),
                                  replay_case=rc_case))
-            elif accepted and e != "ENOENT" and k2 is None and " warn:" not in res["err"]:
+            elif accepted and e != "ENOENT" and k2 is None and not warned(res["err"]):
                 viol.append(dict(feat, kind="no_warning", filter=" ".join(flt) or "default",
                                  detail="%s: result equals the tree without %s, but no warning was logged" % (ctx, sorted(accepted)),
                                  replay_case=rc_case))
